@@ -614,7 +614,21 @@ class Describer:
         rets = [l for l in leaves if l[1] == "ret"]
         vals = {l[2] for l in rets}
         if len(vals) != 1:
-            return opaque("scalar reader with several distinct results")
+            # a conversion defined by cases: a case that returns the constant its own condition pins the wire value to is the identity there
+            cases = []
+            for l in rets:
+                conds = [(subst(c, X, HOLE), pol) for c, pol in l[0]]
+                term = subst(l[2], X, HOLE)
+                if isinstance(term, tuple) and term[:1] == ("k",) and any(pol and c in (("eq", HOLE, term), ("eq", term, HOLE)) for c, pol in conds):
+                    term = HOLE
+                cases.append((conds, term))
+            if len({t for _, t in cases}) == 1:
+                d["conv"] = cases[0][1]
+            else:
+                d["conv"] = ("cases", tuple((tuple(c), t) for c, t in cases))
+            d["raises"] = sorted({l[2] for l in leaves if l[1] == "raise"})
+            d["guards"] = [[(subst(c, X, HOLE), pol) for c, pol in l[0]] for l in rets]
+            return d
         d["conv"] = subst(next(iter(vals)), X, HOLE)
         d["raises"] = sorted({l[2] for l in leaves if l[1] == "raise"})
         d["guards"] = [[(subst(c, X, HOLE), pol) for c, pol in l[0]] for l in rets]
@@ -726,17 +740,25 @@ class Describer:
                 else:
                     arms[tag] = {"opaque": f"tag {tag}: {[ev for ev, _ in rest]!r} -> {outcome}"}
                 continue
-            # miss arm: no tag matched
+            # miss arm: no tag matched.  There may be several such paths (e.g. one per value a loop-carried local can hold): a path
+            # that does anything but skip decides what is reported
+            def set_miss(m):
+                cur = info["miss"]
+                if cur is None or (cur.get("k") == "skip" and m.get("k") != "skip") or (cur.get("k") == "skip" and m.get("k") == "skip" and not m.get("exact")):
+                    info["miss"] = m
             if outcome == "raise":
-                info["miss"] = {"k": "raise", "exc": short_exc(val.cls), "site": next((e[2] for e in effs if e[0] == "raise-site"), None)}
+                set_miss({"k": "raise", "exc": short_exc(val.cls), "site": next((e[2] for e in effs if e[0] == "raise-site"), None)})
             elif outcome == "next":
                 if len(rest) == 1 and rest[0][0][0] in ("xread", "read") and term_of(rest[0][1][2]) == size_t:
-                    info["miss"] = {"k": "skip", "exact": rest[0][0][0] == "xread"}
+                    set_miss({"k": "skip", "exact": rest[0][0][0] == "xread"})
                     info["size_used"] = True
                 elif not rest:
-                    info["miss"] = {"k": "ignore-without-skipping"}
+                    set_miss({"k": "ignore-without-skipping"})
+                elif any(ev[0] == "codec" and ev[1] == "P0" for ev, _ in rest):
+                    set_miss({"k": "parsed-as-field", "carried": sorted({e[1] for e in effs if e[0] == "loop-carried"}),
+                              "site": next((e[-1] for ev, e in rest if ev[0] == "codec"), None)})
                 else:
-                    info["miss"] = {"k": "opaque", "reason": f"miss arm does {[ev for ev, _ in rest]!r}"}
+                    set_miss({"k": "opaque", "reason": f"miss arm does {[ev for ev, _ in rest]!r}"})
             else:
                 info["miss"] = {"k": "opaque", "reason": f"miss arm outcome {outcome}"}
         return info
